@@ -1061,6 +1061,28 @@ def gen_Validation(repo):
         chk.append((name, m))
     L.append("def sysCheckLists : List (String × String) := %s\n" % lean_list(["(%s, %s)" % (lean_str(a), lean_str(b)) for a, b in chk]))
 
+    # ---- which positional accessors of the two space classes validate their position argument
+    def guards(src, cls, names):
+        rows = []
+        for nm in names:
+            fn = _class_func(src, cls, nm)
+            g = any(isinstance(n, ast.Call) and _norm(src, n.func) in ("self.get_cell_index", "self.is_within_bounds")
+                    and n.args and _norm(src, n.args[0]).startswith(("position", "cell_index")) for n in ast.walk(fn))
+            rows.append((nm, g))
+        return rows
+    acc = ["get_cell_env", "get_cell_vol", "get_neighbors", "are_neighbors"]
+    L.append("/-- positional accessors: does the method check its position (calls get_cell_index / is_within_bounds on it)? -/")
+    L.append("def gridAccessorGuards : List (String × Bool) := %s" % lean_list(
+        ["(%s, %s)" % (lean_str(a), "true" if b else "false") for a, b in guards(grid, "RDGridSpace", acc + ["get_cell_coordinates", "get_cell_index"])]))
+    L.append("def graphAccessorGuards : List (String × Bool) := %s\n" % lean_list(
+        ["(%s, %s)" % (lean_str(a), "true" if b else "false") for a, b in guards(graph, "RDGraphSpace", acc)]))
+    # ---- RDSystem.__init__: default state / chemostat generation (the only place the environment map is looked up)
+    # happens for `None` and `dict` arguments only
+    rinit = _class_func(rds, "RDSystem", "__init__")
+    tests = [(_norm(rds, n.test), [_norm(rds, b) for b in n.body]) for n in ast.walk(rinit) if isinstance(n, ast.If)]
+    L.append("def systemInitBranches : List (String × List String) := %s\n" % lean_list(
+        ["(%s, %s)" % (lean_str(a), lean_list([lean_str(x) for x in b])) for a, b in tests]))
+
     # ---- coarse-graining map rules, state-index guard
     cg = PySrc(repo, "src/strengths/coarsegrain.py")
     L.append("/-- raise conditions of `check_index_map_validity`, in order -/")
